@@ -228,6 +228,52 @@ theorem itemResult_failed (srv : Srv) (it : Item) :
   simp only [fails]
   cases hr : srv.routed it.op <;> simp
 
+/-! ### the batch loop around ANY batch-item middleware chain
+
+`loopG f stop items 0 false ph` is the loop of `handleRequest` where `f` — index, placeholder, request item ↦
+response item, placeholder — stands for `executeItemWithMiddleware` with whatever batch-item middlewares are
+installed (they may skip, retry, rewrite or replace the result: C19). Its second component lists the items handed to
+the chain. Echo and "handler at most once" are properties of the chain, not of the loop, and are NOT claimed
+here; what the loop guarantees for every `f`: -/
+
+/-- 9a. one response item per request item, whatever the chain does. -/
+theorem chain_loop_one_item_per_request_item (f : Nat → Val → Item → GItemOut) (stop : Bool)
+    (items : List Item) (ph : Val) :
+    (loopG f stop items 0 false ph).1.length = items.length :=
+  loopG_length f stop items 0 false ph
+
+/-- 9b. Continue / unset: every item goes through the chain exactly once, in order. -/
+theorem chain_loop_continue (f : Nat → Val → Item → GItemOut) (items : List Item) (ph : Val) :
+    (loopG f false items 0 false ph).2 = List.range items.length := by
+  rw [loopG_continue, List.range_eq_range']
+
+/-- 9c. Stop: the decision is taken on the item as it comes OUT of the chain. With `k` the first response item that
+    is failed, exactly the items `0..k` went through the chain (each once, in order), no later item did, and every
+    later item is answered failed echoing its operation and id. -/
+theorem chain_loop_stop (f : Nat → Val → Item → GItemOut) (items : List Item) (ph : Val)
+    (k : Nat) (r : RItem) (hk : (loopG f true items 0 false ph).1[k]? = some r) (hf : r.failed = true)
+    (hfirst : ∀ j r', j < k → (loopG f true items 0 false ph).1[j]? = some r' → r'.failed = false) :
+    (loopG f true items 0 false ph).2 = List.range (k + 1) ∧
+    ∀ j it, k < j → items[j]? = some it →
+      ∃ r', (loopG f true items 0 false ph).1[j]? = some r' ∧
+        r'.op = it.op ∧ r'.id = it.id ∧ r'.failed = true := by
+  obtain ⟨h1, h2⟩ := loopG_stop f items 0 ph k r hk hf hfirst
+  refine ⟨by rw [h1, List.range_eq_range'], ?_⟩
+  intro j it hj hget
+  exact ⟨canceled it, h2 j it hj hget, rfl, rfl, rfl⟩
+
+/-- 9d. Stop, no failed response item: every item went through the chain. -/
+theorem chain_loop_stop_without_failure (f : Nat → Val → Item → GItemOut) (items : List Item) (ph : Val)
+    (h : ∀ (j : Nat) (r' : RItem), (loopG f true items 0 false ph).1[j]? = some r' → r'.failed = false) :
+    (loopG f true items 0 false ph).2 = List.range items.length := by
+  rw [loopG_stop_no_failure f items 0 ph h, List.range_eq_range']
+
+/-- 9e. the middleware-free model is the instance `f = plainItem srv` of the generic loop. -/
+theorem chain_loop_plain (srv : Srv) (req : Req) (h : Accepted srv req) :
+    (execFull srv req).resp.items = (loopG (plainItem srv) (req.opt == optStop) req.items 0 false 0).1 := by
+  rw [execFull_accepted srv req h]
+  exact loop_eq_loopG srv _ req.items 0 false 0
+
 /-! ### non-vacuity -/
 
 /-- routes for operations 1 and 2, versions 1.4 and 1.2. -/
@@ -278,5 +324,17 @@ example : srv0.supports (2, 0) = false := by decide
 example : ¬ Accepted srv0 { reqCont with count := 4 } := by decide
 example : (execFull srv0 { reqCont with ver := (0, 0) }).resp =
     { ver := (1, 0), count := 1, items := [⟨0, none, true, 4⟩] } := by decide
+
+/-- a chain that masks the failure of item 1 (answers success instead) and fails item 2 itself: under Stop the batch
+    goes on after item 1 and stops after item 2 — the decision follows what comes out of the chain. -/
+def maskingChain : Nat → Val → Item → GItemOut := fun i ph it =>
+  let o := executeItemWithMiddleware srv0 ph it
+  if i = 1 then { ri := { o.ri with failed := false, reason := 0 }, ph := o.ph }
+  else if i = 2 then { ri := { o.ri with failed := true }, ph := o.ph }
+  else { ri := o.ri, ph := o.ph }
+
+example : (loopG maskingChain true items0 0 false 0).2 = [0, 1, 2] ∧
+    (loopG maskingChain true items0 0 false 0).1.map (·.failed) = [false, false, true, true, true] := by
+  decide
 
 end Kmip.C09
